@@ -248,6 +248,24 @@ func (c *c02scen) write(i, tag int) ([]string, error) {
 func (c *c02scen) restart(i int) error {
 	ctx := context.Background()
 	s := c.s
+	if c.r.Rng.Intn(3) == 0 {
+		// only the STORE is closed and opened again, on the same OrbitDB instance (which keeps
+		// its direct-channel monitor, its pubsub adapter and its registry of stores)
+		if err := s.Stores[i].Close(); err != nil {
+			return fmt.Errorf("close store: %w", err)
+		}
+		st2, err := s.Reps[i].Orbit.Open(ctx, s.Addr, &orbitdb.CreateDBOptions{})
+		if err != nil {
+			return fmt.Errorf("reopen on the same instance: %w", err)
+		}
+		if err := st2.Load(ctx, -1); err != nil {
+			return fmt.Errorf("load: %w", err)
+		}
+		s.Stores[i] = st2
+		delete(c.lastH, i)
+		c.r.Count("restart:store-only")
+		return nil
+	}
 	_ = s.Reps[i].Orbit.Close()
 	rep, err := s.Env.NewReplicaAt(s.Reps[i].Idx, s.Label, s.Reps[i].Dir)
 	if err != nil {
